@@ -11,6 +11,7 @@ structure St where
   proto  : Nat := 0
   implOk : Bool := false                       -- the implementation's setup returned a handler
   cfg    : Option Plug.PlugCfg := none         -- the configuration the model accepted
+  raw    : List Bytes := []                    -- the arguments as given (bytes of each)
 deriving Inhabited
 
 /-! ### parsing -/
@@ -217,7 +218,7 @@ def stepCfg (proto name : String) (args : List String) (res : String) : St × Li
             | .v6 _ => []
           ({ name := name, proto := p, implOk := true, cfg := some cfg }, [s!"br:{tag}.setup-ok"] ++ c19 ++ rng)
         | _ =>
-          ({ name := name, proto := p, implOk := true }, [s!"br:{tag}.setup-ok", s!"{dv} model={fmtSetup m}"] ++
+          ({ name := name, proto := p, implOk := true, raw := args.filterMap parseHex }, [s!"br:{tag}.setup-ok", s!"{dv} model={fmtSetup m}"] ++
             (if nonAscii then [] else [s!"FAIL C19 {name} implementation accepts a configuration the model rejects"]))
       | ["err"] =>
         ({ name := name, proto := p }, [s!"br:{tag}.setup-err"] ++
@@ -259,6 +260,34 @@ def isAbort (res : String) : Bool := res == "CRASH" || res == "HANG" || res.star
 /-- `MessageType()` of the response: option 53 when it is one byte long -/
 def mtOfOpts (o : Opts) : Nat := match Plug.lookup 53 o with | some [b] => b | _ => 0
 
+/-- RFC 1035 names as a client reads an option 119 / 24 value: each name is a sequence of length-prefixed labels ended by
+a zero length (no compression: the server does not compress); `none` when the bytes do not end on a name boundary -/
+def decodeNames : Nat → Bytes → List Bytes → Option (List (List Bytes))
+  | 0, _, _ => none
+  | _, [], [] => some []
+  | _, [], _ :: _ => none
+  | fuel + 1, n :: rest, cur =>
+    if n == 0 then (decodeNames fuel rest []).map (fun ns => cur.reverse :: ns)
+    else if n > 63 || rest.length < n then none
+    else decodeNames fuel (rest.drop n) (rest.take n :: cur)
+
+def stripDot (b : Bytes) : Bytes := if b.getLast? == some 46 then b.dropLast else b
+
+/-- searchdomains with a configuration the implementation accepted although the model refuses it: C17 on the observation alone —
+the option that is sent must decode to exactly the names given as arguments (a trailing dot apart), each once, in order -/
+def searchWire (st : St) (code : Nat) (opts : Opts) (res : String) : List String :=
+  if st.name != "searchdomains" || st.raw.isEmpty then [] else
+  match Plug.lookup code opts with
+  | none => []
+  | some v =>
+    let want := st.raw.map stripDot
+    match decodeNames (v.length + 1) v [] with
+    | some names =>
+      let got := names.map (fun ls => (ls.foldl (fun acc l => if acc.isEmpty then l else acc ++ [46] ++ l) ([] : Bytes)))
+      if got == want && !(names.any (·.isEmpty)) then [] else
+        [s!"FAIL C17 searchdomains: the accepted arguments are {want.length} name(s) {want.map bytesHex}; the option that is sent reads as {got.length} name(s) {got.map bytesHex}: {short res}"]
+    | none => [s!"FAIL C17 searchdomains: the option that is sent is not a sequence of RFC 1035 names: {short res}"]
+
 def step4 (st : St) (res : String) : List String :=
   let tag := s!"plug.{st.name}.4"
   if res == "skip" then (if st.implOk then ["DIVERGE drift skip-after-ok"] else [s!"br:plug.skip"]) else
@@ -286,6 +315,8 @@ def step4 (st : St) (res : String) : List String :=
       brs ++ dv ++ cons ++ mon ++ rtMsgs st rt
     | _, _, _ => ["DIVERGE drift unparsed-result"]
   | some (.v6 _), _ => ["DIVERGE drift protocol-mismatch"]
+  | none, [_, _, outW, _] =>
+    "DIVERGE drift no-model-configuration" :: (match parseOut4 outW with | some (some r, _) => searchWire st 119 r.opts res | _ => [])
   | none, _ => ["DIVERGE drift no-model-configuration"]
   | _, _ => ["DIVERGE drift unparsed-result"]
 
@@ -322,6 +353,8 @@ def step6 (st : St) (res : String) : List String :=
     | some _, some _, some none => ["DIVERGE dom model does not return a relay message", s!"FAIL C17 {st.name} handler returned a relay message"]
     | _, _, _ => ["DIVERGE drift unparsed-result"]
   | some (.v4 _), _ => ["DIVERGE drift protocol-mismatch"]
+  | none, [_, _, outW, _] =>
+    "DIVERGE drift no-model-configuration" :: (match parseOut6 outW with | some (some (some r, _)) => searchWire st 24 r.opts res | _ => [])
   | none, _ => ["DIVERGE drift no-model-configuration"]
   | _, _ => ["DIVERGE drift unparsed-result"]
 
